@@ -323,8 +323,10 @@ CLAIMS: dict[str, tuple[str, str, str, str]] = {
         "second-chain rule, every nesting depth, every other configuration): the rule is inert without two tildes in a row (scanDelims counts a run of one), "
         "without it no rule ever records a tilde delimiter (an invariant of the delimiter bookkeeping — current list, enclosing scopes, closed scopes — "
         "through every rule and engine function, DInv / keepsI_*), processDelims keeps markers, and strikethrough's post-processing is then the identity. "
+        "any_two_configurations (Props/C10j.lean): any two configurations of the ten switchable inline rules (emphasis included) give identical token streams on "
+        "every source holding no trigger of a rule enabled in exactly one of them — the conservative-extension clause for the whole inline sub-parser. "
         "MISSING: provenance for the remaining rules (table, reference; linkify) and the "
-        "conservative-extension clause for the block rules (table: not modelled) and for emphasis are decided by the oracle (token kinds under random rule subsets; "
+        "conservative-extension clause for the block rules (table: not modelled) is decided by the oracle (token kinds under random rule subsets; "
         "table/strikethrough on vs off on trigger-free inputs; definition options erase to the plain parse, env and HTML equal; "
         "switches issued while a render is in flight). Tie: Ruler/facade/options model of C11/C12 + route requests.",
         NOTE,
